@@ -339,9 +339,39 @@ func c20Replies(c *core.Collector, x *Ctx) {
 	// one long connection across the platform-serial wrap
 	jobs = append(jobs, job{consts.JT808Protocol2013, "93912345678", c.N(66000, 70000)})
 	var wg sync.WaitGroup
+	// phones that are all zeros (they share one session key per field width, so these sessions run one after the other)
+	var zeroJobs []job
+	for _, ver := range c20Versions {
+		zs := []string{"0", "000000", "000000000000"}
+		if ver == consts.JT808Protocol2019 {
+			zs = append(zs, "00000000000000000000")
+		}
+		for _, z := range zs {
+			zeroJobs = append(zeroJobs, job{ver, z, c.N(40, 200)})
+		}
+	}
+	var runJob func(ji int, j job)
+	defer func() {
+		for zi, j := range zeroJobs {
+			wg.Add(1)
+			runJob(1000+zi, j)
+			c.Count("all_zero_phone_sessions", 1)
+			// the next session presents the same key: wait until the server has released it (a command to an absent key returns
+			// "not exist" at once)
+			for _, key := range []string{"000000000000", "00000000000000000000", "0"} {
+				for try := 0; try < 400; try++ {
+					if res := sendCmd(srv.G, key, consts.P8104QueryTerminalParams, nil, 5*time.Millisecond, 5*time.Second); res.kind == "notexist" {
+						break
+					}
+					sleepMs(25)
+				}
+			}
+		}
+		c.Floor("all_zero_phone_sessions", 6)
+	}()
 	for ji, j := range jobs {
 		wg.Add(1)
-		go func(ji int, j job) {
+		runJob = func(ji int, j job) {
 			defer wg.Done()
 			sim := terminal.New(terminal.WithHeader(j.ver, j.phone))
 			conn, err := svc.Dial(srv.Addr, j.ver == consts.JT808Protocol2019, "1")
@@ -423,7 +453,8 @@ func c20Replies(c *core.Collector, x *Ctx) {
 			if ji == 0 {
 				c.Sample(map[string]any{"version": int(j.ver), "phone": j.phone, "replies_compared": pserial})
 			}
-		}(ji, j)
+		}
+		go runJob(ji, j)
 	}
 	wg.Wait()
 	c.Floor("connections", 5)
